@@ -171,10 +171,18 @@ func (g *rGen) genBatchFor(s, owner int) string {
 
 func (g *rGen) genAck(w *rWorld, t int) string {
 	ti := w.tgt[t]
-	if ti == nil || ti.broken || ti.lastHigh == 0 {
+	if ti == nil || ti.broken {
 		return ""
 	}
 	rng := g.rng
+	if ti.lastHigh == 0 {
+		// nothing received yet (possibly the first Send is being held): a target cluster reports its level from the moment
+		// the stream is up — 0 or 1 in this stream's id space, which confirms nothing
+		if rng.IntN(3) == 0 {
+			return fmt.Sprintf("ack %d %d", t, rng.IntN(2))
+		}
+		return ""
+	}
 	wv := ti.lastHigh // everything received is processed
 	switch rng.IntN(6) {
 	case 0: // first pending task: an id inside what was received
